@@ -42,9 +42,12 @@ pub enum K {
     /// locally, nothing is sent
     SearchBadFilter,
     StreamBadFilter,
+    /// search() / a stream over a result of 100 entries
+    SearchMany,
+    StreamMany,
 }
 
-pub const KINDS: [K; 20] = [
+pub const KINDS: [K; 22] = [
     K::Bind,
     K::SaslExternal,
     K::Search,
@@ -65,6 +68,8 @@ pub const KINDS: [K; 20] = [
     K::Unbind,
     K::SearchBadFilter,
     K::StreamBadFilter,
+    K::SearchMany,
+    K::StreamMany,
 ];
 
 /// server behaviour, encoded in the marker the request carries
@@ -79,13 +84,18 @@ pub enum B {
 #[derive(Clone, Copy, Debug, PartialEq, Eq)]
 pub struct Step {
     pub k: K,
-    /// bit 0 controls, bit 1 timeout (10 ms), bit 2 search options, bit 3 controls given as an empty list
+    /// bit 0 controls, bit 1 timeout (10 ms), bit 2 search options, bit 3 controls given as an
+    /// empty list, bit 4 timeout Duration::MAX, bit 5 controls set twice (the second call counts)
     pub mods: u8,
     pub b: B,
 }
 
 fn marker(i: usize, s: &Step) -> String {
-    format!("cn=s{},b={:?}", i, s.b)
+    if matches!(s.k, K::SearchMany | K::StreamMany) {
+        format!("cn=s{},b={:?},n=many", i, s.b)
+    } else {
+        format!("cn=s{},b={:?}", i, s.b)
+    }
 }
 
 fn policy(m: &Msg) -> (Behave, usize) {
@@ -99,7 +109,7 @@ fn policy(m: &Msg) -> (Behave, usize) {
     } else {
         Behave::Rc(0)
     };
-    (b, 2)
+    (b, if mk.contains("n=many") { 100 } else { 2 })
 }
 
 fn has_request(k: K) -> bool {
@@ -155,6 +165,13 @@ async fn run_async(ldap: &mut ldap3::Ldap, seq: &[Step], out: &mut Vec<String>) 
         if s.mods & 8 != 0 {
             ldap.with_controls(Vec::<RawControl>::new());
         }
+        if s.mods & 16 != 0 {
+            ldap.with_timeout(Duration::MAX);
+        }
+        if s.mods & 32 != 0 {
+            ldap.with_controls(vec![ctl(i + 7), ctl(i + 9)]);
+            ldap.with_controls(ctl(i));
+        }
         if s.mods & 2 != 0 {
             ldap.with_timeout(Duration::from_millis(10));
         }
@@ -166,8 +183,8 @@ async fn run_async(ldap: &mut ldap3::Ldap, seq: &[Step], out: &mut Vec<String>) 
         let r = match s.k {
             K::Bind => format!("{:?}", ldap.simple_bind(&m, "pw").await),
             K::SaslExternal => format!("{:?}", ldap.sasl_external_bind().await),
-            K::Search | K::SearchBadFilter => format!("{:?}", ldap.search(&m, Scope::Subtree, filt(s.k), attrs()).await),
-            K::Stream | K::StreamEntriesOnly | K::StreamPaged | K::StreamEarlyResult | K::StreamBadFilter => {
+            K::Search | K::SearchBadFilter | K::SearchMany => format!("{:?}", ldap.search(&m, Scope::Subtree, filt(s.k), attrs()).await),
+            K::Stream | K::StreamEntriesOnly | K::StreamPaged | K::StreamEarlyResult | K::StreamBadFilter | K::StreamMany => {
                 match ldap.streaming_search_with(adapters(s.k), &m, Scope::OneLevel, filt(s.k), attrs()).await {
                     Err(e) => format!("start Err({:?})", e),
                     Ok(mut st) => {
@@ -224,6 +241,13 @@ fn run_sync(conn: &mut LdapConn, seq: &[Step], now: &dyn Fn() -> u128, out: &mut
         if s.mods & 8 != 0 {
             conn.with_controls(Vec::<RawControl>::new());
         }
+        if s.mods & 16 != 0 {
+            conn.with_timeout(Duration::MAX);
+        }
+        if s.mods & 32 != 0 {
+            conn.with_controls(vec![ctl(i + 7), ctl(i + 9)]);
+            conn.with_controls(ctl(i));
+        }
         if s.mods & 2 != 0 {
             conn.with_timeout(Duration::from_millis(10));
         }
@@ -235,9 +259,9 @@ fn run_sync(conn: &mut LdapConn, seq: &[Step], now: &dyn Fn() -> u128, out: &mut
         let r = match s.k {
             K::Bind => format!("{:?}", conn.simple_bind(&m, "pw")),
             K::SaslExternal => format!("{:?}", conn.sasl_external_bind()),
-            K::Search | K::SearchBadFilter => format!("{:?}", conn.search(&m, Scope::Subtree, filt(s.k), attrs())),
-            K::Stream | K::StreamEntriesOnly | K::StreamPaged | K::StreamEarlyResult | K::StreamBadFilter => {
-                let started = if s.k == K::Stream || s.k == K::StreamEarlyResult {
+            K::Search | K::SearchBadFilter | K::SearchMany => format!("{:?}", conn.search(&m, Scope::Subtree, filt(s.k), attrs())),
+            K::Stream | K::StreamEntriesOnly | K::StreamPaged | K::StreamEarlyResult | K::StreamBadFilter | K::StreamMany => {
+                let started = if s.k == K::Stream || s.k == K::StreamEarlyResult || s.k == K::StreamMany {
                     conn.streaming_search(&m, Scope::OneLevel, filt(s.k), attrs())
                 } else {
                     conn.streaming_search_with(adapters(s.k), &m, Scope::OneLevel, filt(s.k), attrs())
@@ -328,7 +352,7 @@ fn exec_sync(seq: &[Step]) -> (Vec<String>, Vec<String>) {
 
 fn valid(s: &Step) -> bool {
     // a silent server needs a timeout on that very operation (otherwise the blocking API blocks forever)
-    if s.b == B::Silent && (s.mods & 2 == 0 || !carries_marker(s.k) || matches!(s.k, K::Search | K::Stream | K::StreamEntriesOnly | K::StreamPaged | K::StreamEarlyResult)) {
+    if s.b == B::Silent && (s.mods & 2 == 0 || !carries_marker(s.k) || matches!(s.k, K::Search | K::Stream | K::StreamEntriesOnly | K::StreamPaged | K::StreamEarlyResult | K::SearchMany | K::StreamMany)) {
         return false;
     }
     if s.b != B::Ok && !carries_marker(s.k) {
@@ -343,7 +367,7 @@ fn valid(s: &Step) -> bool {
 fn steps(tier: Tier) -> Vec<Step> {
     let mut v = vec![];
     for k in KINDS {
-        for mods in [0u8, 1, 2, 3, 4, 5, 6, 7, 8, 14] {
+        for mods in [0u8, 1, 2, 3, 4, 5, 6, 7, 8, 14, 16, 21, 32, 36] {
             for b in [B::Ok, B::NoSuchObject, B::Silent, B::Disconnect] {
                 if mods >= 8 && b != B::Ok {
                     continue;
